@@ -325,6 +325,11 @@ func (m *prioMon) OnEvent(w *vrt.World, ev *vrt.Event) {
 			m.inClosed[i] = true
 			return
 		}
+		if ev.Ch == m.errc && m.cfg.Disc == "s2" && m.handling != 0 {
+			// v2 simple: Err() closes only after every handled item has been released, and
+			// a handler releases after Handle has returned
+			m.f.fail("C19", "Err() was closed while %d Handle calls are still running: a handler goroutine outlives the termination", m.handling)
+		}
 		if ev.Ch == m.out || ev.Ch == m.errc {
 			// C07: termination only when drained and released
 			for i, c := range m.ins {
